@@ -132,6 +132,29 @@ CLAIMED = {
               "over a (w, d) log grid."),
         design="6/C07", technique="Lean 4 proof at ℝ (calculus in Mathlib) + Float-model correspondence + residual scan",
         note=PROOF_NOTE + " Sampled, not proved: that 10 Newton steps reach 1e-3 for every (w, d) of the box (max residual seen is recorded in the evidence)."),
+    "C15": dict(
+        text=("Lean 4 theorems: (a) C-order index arithmetic of flatten for every number and size of leading dimensions: "
+              "unravel(ravel idx) = idx for every valid multi-index, ravel(unravel k) = k with a valid multi-index for every "
+              "k below the count, flatten keeps the count and pairs spectrum ravel(idx) with the data at idx; selecting "
+              "element i of a concatenation is the i-th input; (b) an object-store model of the discipline the code "
+              "follows (every operation builds a fresh dataset, only fillna / multiply(inplace=True) rebind their own): "
+              "well-formedness is preserved by every operation, every pre-existing object is unchanged by every operation "
+              "that is not in-place on it (lifted to all histories by induction), a derived object / deep copy shares no "
+              "array with earlier objects. The tie to the code is observational: byte snapshots of every variable of every "
+              "live object before and after each operation of random sequences (<= 6), write-through test of deep copies, "
+              "bitwise concat/select, flatten pairing and netCDF round trips."),
+        design="6/C15", technique="Lean 4 proof (index arithmetic, store invariant by induction over operations) + snapshot/round-trip oracles on the implementation",
+        note=PROOF_NOTE + " The store model abstracts array contents away; whether an operation of the code mutates an operand is decided only by the snapshot oracle (no executable correspondence for this part)."),
+    "C16": dict(
+        text=("Lean 4 theorems at ℝ over the model of create_fourier_amplitudes / nfft*irfft(a, n): series and time axis both "
+              "have nfft samples (nfft even, nfft <= L < nfft+2), time axis t/fs; |amplitude|^2 = area*E/2*|factor|^2 "
+              "independent of the phase; the six transfer factors carry 1, w^2, cos^2, sin^2, w^2cos^2, w^2sin^2; scaling "
+              "the density by c >= 0 scales amplitudes and series by sqrt c (linearity of the inverse transform); equal "
+              "phases give equal series. Correspondence: Float model of amplitudes + real inverse DFT against "
+              "surface_timeseries for all six components (phases drawn with the same default_rng call); the variance "
+              "clauses (Parseval), lengths, seeds and sqrt-scaling checked on the implementation."),
+        design="6/C16", technique="Lean 4 proof at ℝ + Float-model correspondence + variance oracle",
+        note=PROOF_NOTE + " The discrete Parseval identity (variance = sum of 2|a_k|^2) is checked numerically on every case, not yet proved in Lean; 'different seeds differ' is a statement about PCG64."),
 }
 
 NOT_YET = "check not built yet in this session; see DESIGN.md section 9 (build order)"
